@@ -121,6 +121,23 @@ var c09Families = []magFamily{
 	{"index-literal-in-projection", "aa[*][%M]", true, "20"},
 	{"slice-in-projection", "aa[*][:%M]", true, "20"},
 	{"pad-small", "pad_left(s, `12`)", false, "20"},
+	// integer arguments and operands whose *spelling* carries the magnitude: zero or small mantissas with
+	// huge exponents, long runs of leading / trailing zeros
+	{"zero-exp-count", "replace(s, 'a', 'xy', `0e%M`)", true, "20"},
+	{"zero-exp-split", "split(c, ',', `0.0E+%M`)", false, "20"},
+	{"zero-exp-pad", "pad_left(s, `0e%M`, '-')", true, "20"},
+	{"zero-exp-find", "find_first(s, 'c', `-0e%M`)", false, "20"},
+	{"zero-exp-find-end", "find_last(s, 'c', `0`, `0E%M`)", true, "20"},
+	{"zero-exp-doc", "split(c, ',', z)", false, "20"},
+	{"small-exp-neg-count", "replace(s, 'a', 'xy', `5e-%M`)", false, "20"},
+	{"small-exp-slice-cmp", "a[?@ > `0e%M`]", true, "20"},
+	{"zero-exp-arith", "`0e%M` + `1`", true, "20"},
+	{"zero-exp-mul", "`0e%M` * `3e%M`", true, "20"},
+	{"zero-exp-cmp", "`0e%M` == `0`", true, "20"},
+	{"zero-exp-to_number", "to_number('0e%M')", true, "20"},
+	{"zero-exp-abs-ceil", "[abs(`0e-%M`), ceil(`0e%M`), floor(`-0e%M`)]", false, "20"},
+	{"zero-exp-sort", "sort(`[0e%M, 1, 0e-%M]`)", false, "20"},
+	{"zero-exp-index-like", "a[?@ == `0e%M`]", true, "20"},
 }
 
 func c09Doc(mag string) any {
@@ -129,7 +146,7 @@ func c09Doc(mag string) any {
 		a[i] = json.Number(fmt.Sprint(i))
 	}
 	aa := []any{a, a, a}
-	return map[string]any{"a": a, "aa": aa, "s": "abcabcabca", "m": "aé𝌆béé𝌆ab", "c": "a,b,c,d,e", "n": json.Number(mag), "big": json.Number("1e" + mag)}
+	return map[string]any{"a": a, "aa": aa, "s": "abcabcabca", "m": "aé𝌆béé𝌆ab", "c": "a,b,c,d,e", "n": json.Number(mag), "big": json.Number("1e" + mag), "z": json.Number("0e" + mag)}
 }
 
 func c09MagN(c *Ctx) int { return len(c09Families) * 2 }
@@ -260,7 +277,9 @@ var c09Scale = []scaleFamily{
 		k := min(n, 4000)
 		return strings.Repeat("(b||", k) + "a" + strings.Repeat(")", k), map[string]any{"a": json.Number("1"), "b": nil}
 	}},
-	{"expr-not-chain", func(n int) (string, any) { return strings.Repeat("!", min(n, 9000)) + "a", map[string]any{"a": json.Number("1")} }},
+	{"expr-not-chain", func(n int) (string, any) {
+		return strings.Repeat("!", min(n, 9000)) + "a", map[string]any{"a": json.Number("1")}
+	}},
 	{"expr-or-chain-in-filter", func(n int) (string, any) {
 		return "xs[?" + strings.Repeat("@||", min(n, 2000)) + "@]", map[string]any{"xs": []any{json.Number("1"), nil, json.Number("2")}}
 	}},
@@ -435,7 +454,7 @@ func c09Random(c *Ctx, idx int) {
 func init() {
 	Register(&Property{
 		ID:            "C09",
-		Rule:          "cost measured deterministically per call: steps = basic-block executions inside the library (compiler coverage counters, atomic mode, cleared before the call), alloc = bytes allocated; R1: 37 families parameterised by an integer magnitude (slice bounds/steps on arrays and strings, index literals, find_* offsets, replace/split counts, numeric exponents in literals, strings and data) at 1e3..2^63-1 and negatives must cost <= 2x the cost at magnitude 20 (+1000 steps / +64 KiB); R2: 44 scaling families (array/string/object size, chain/nesting/argument/literal length) at n = 10..1e4 (1e5 thorough) must grow with exponent <= 2.2 on the last decade; R3: seeded random calls must stay within 5000 steps and 4 KiB per unit of (expression + document + intermediate + result size), and a sampler ends any call that exceeds its step budget; 'every call terminates' is decided as bounded progress under these budgets; non-trivial = every measured (family, magnitude/size) or random call",
+		Rule:          "cost measured deterministically per call: steps = basic-block executions inside the library (compiler coverage counters, atomic mode, cleared before the call), alloc = bytes allocated; R1: 52 families parameterised by an integer magnitude (slice bounds/steps on arrays and strings, index literals, find_* offsets, replace/split counts, numeric exponents in literals, strings and data, zero and small mantissas with huge exponents in every integer-argument position) at 1e3..2^63-1 and negatives must cost <= 2x the cost at magnitude 20 (+1000 steps / +64 KiB); R2: 44 scaling families (array/string/object size, chain/nesting/argument/literal length) at n = 10..1e4 (1e5 thorough) must grow with exponent <= 2.2 on the last decade; R3: seeded random calls must stay within 5000 steps and 4 KiB per unit of (expression + document + intermediate + result size), and a sampler ends any call that exceeds its step budget; 'every call terminates' is decided as bounded progress under these budgets; non-trivial = every measured (family, magnitude/size) or random call",
 		MinNontrivial: 300,
 		Streams: []Stream{
 			{Name: "magnitude", Setup: c09Setup, N: c09MagN, Run: c09Mag, Exhaustive: true},
